@@ -9,7 +9,8 @@ from oasmc.engine import digest_arrays
 ID = "C09"
 RULE = (
     "complete product of surface-set x planform x nx x ny x Mach x alpha x beta x rotational; part 'pg': compressible forces vs the "
-    "real incompressible solver on the harness-transformed geometry; part 'm0': M=0,beta=0 identity; part 'cont': Mach ladder; "
+    "real incompressible solver on the harness-transformed geometry; part 'm0': M=0,beta=0 identity; part 'cont': Mach ladder; part 'pgrot': with rotation rates at M>=0 the onset flow "
+    "handed to the equivalent incompressible problem is a rigid-body rotation field of the stretched geometry; "
     "non-trivial = forces non-zero (and M>0 for the transformation identity)"
 )
 ASSUMPTIONS = ["finite alphabets for M, alpha, beta; nx<=4, ny<=7, <=2 surfaces", "the incompressible solver is validated separately by C05", "OpenMDAO/NumPy/SciPy trusted"]
